@@ -78,6 +78,32 @@ func verifRoundTripMetaLong(w *writer, st byte, delta uint32, typ byte, data []b
 	return
 }
 
+// meta events: FF type vlq(len) payload, written as they are; the reader rebuilds the same bytes (payload of 16384..2097151 bytes: three length bytes)
+func verifRoundTripMetaLong3(w *writer, st byte, delta uint32, typ byte, data []byte) (m Message, d uint32, err error) {
+	raw := _MetaMessage(typ, data)
+	w.addMessage(delta, raw)
+	verifLemmaVlqSpan(w.currentChunk.data, 0, delta)
+	verifLemmaVlqSpan(w.currentChunk.data, vlqLenOf(delta)+2, uint32(len(data)))
+	verifLemmaLen(len(data))
+	rd := verifReaderOver(w.currentChunk.data, st)
+	m, err = rd.readEvent()
+	d = rd.deltatime
+	return
+}
+
+// meta events: FF type vlq(len) payload, written as they are; the reader rebuilds the same bytes (payload of 2097152..268435455 bytes: four length bytes)
+func verifRoundTripMetaLong4(w *writer, st byte, delta uint32, typ byte, data []byte) (m Message, d uint32, err error) {
+	raw := _MetaMessage(typ, data)
+	w.addMessage(delta, raw)
+	verifLemmaVlqSpan(w.currentChunk.data, 0, delta)
+	verifLemmaVlqSpan(w.currentChunk.data, vlqLenOf(delta)+2, uint32(len(data)))
+	verifLemmaLen(len(data))
+	rd := verifReaderOver(w.currentChunk.data, st)
+	m, err = rd.readEvent()
+	d = rd.deltatime
+	return
+}
+
 // vlqLenOf: number of bytes of the variable-length encoding of n (harness helper, specified by the oracle)
 func vlqLenOf(n uint32) int {
 	switch {
@@ -112,8 +138,24 @@ func vlqLenOf(n uint32) int {
 //@ ensures [P:C01] vlqAt(m, 2, uint32(len(data)))
 //@ ensures [P:C01] forall i int :: 0 <= i && i < len(data) ==> m[2 + vlqLen(uint32(len(data))) + i] == data[i]
 
+//@ func verifRoundTripMetaLong3
+//@ requires w != nil && writerInv(w) && len(w.currentChunk.data) == 0 && st == wrs(w) && (st == 0 || (st >= 0x80 && st <= 0xEF)) && len(data) >= 16384 && len(data) < 2097152
+//@ modifies w.absPos, w.currentChunk, asptr(w.runningWriter, runningstatus.smfwriter).status
+//@ ensures [P:C01] err == nil && d == delta
+//@ ensures [P:C01] len(m) == 2 + vlqLen(uint32(len(data))) + len(data) && m[0] == 0xFF && m[1] == typ
+//@ ensures [P:C01] vlqAt(m, 2, uint32(len(data)))
+//@ ensures [P:C01] forall i int :: 0 <= i && i < len(data) ==> m[2 + vlqLen(uint32(len(data))) + i] == data[i]
+
+//@ func verifRoundTripMetaLong4
+//@ requires w != nil && writerInv(w) && len(w.currentChunk.data) == 0 && st == wrs(w) && (st == 0 || (st >= 0x80 && st <= 0xEF)) && len(data) >= 2097152 && len(data) < 268435456
+//@ modifies w.absPos, w.currentChunk, asptr(w.runningWriter, runningstatus.smfwriter).status
+//@ ensures [P:C01] err == nil && d == delta
+//@ ensures [P:C01] len(m) == 2 + vlqLen(uint32(len(data))) + len(data) && m[0] == 0xFF && m[1] == typ
+//@ ensures [P:C01] vlqAt(m, 2, uint32(len(data)))
+//@ ensures [P:C01] forall i int :: 0 <= i && i < len(data) ==> m[2 + vlqLen(uint32(len(data))) + i] == data[i]
+
 // sysex and escape events: F0 / F7, then vlq(len-1) and the remaining bytes; the reader drops the length again
-func verifRoundTripSysex(w *writer, st byte, delta uint32, raw Message) (m Message, d uint32, err error) {
+func verifRoundTripSysex1(w *writer, st byte, delta uint32, raw Message) (m Message, d uint32, err error) {
 	w.addMessage(delta, raw)
 	verifLemmaVlqSpan(w.currentChunk.data, 0, delta)
 	verifLemmaVlqSpan(w.currentChunk.data, vlqLenOf(delta)+1, uint32(len(raw)-1))
@@ -124,9 +166,69 @@ func verifRoundTripSysex(w *writer, st byte, delta uint32, raw Message) (m Messa
 	return
 }
 
-//@ func verifRoundTripSysex
+//@ func verifRoundTripSysex1
 //@ requires w != nil && writerInv(w) && len(w.currentChunk.data) == 0 && st == wrs(w) && (st == 0 || (st >= 0x80 && st <= 0xEF))
-//@ requires len(raw) >= 1 && len(raw) < 16384 && (raw[0] == 0xF0 || raw[0] == 0xF7)
+//@ requires len(raw) >= 1 && len(raw) < 129 && (raw[0] == 0xF0 || raw[0] == 0xF7)
+//@ modifies w.absPos, w.currentChunk, asptr(w.runningWriter, runningstatus.smfwriter).status
+//@ ensures [P:C01] err == nil && d == delta
+//@ ensures [P:C01] len(m) == len(raw) && m[0] == raw[0]
+//@ ensures [P:C01] forall i int :: 1 <= i && i < len(raw) ==> m[i] == raw[i]
+
+// sysex and escape events: F0 / F7, then vlq(len-1) and the remaining bytes; the reader drops the length again
+func verifRoundTripSysex2(w *writer, st byte, delta uint32, raw Message) (m Message, d uint32, err error) {
+	w.addMessage(delta, raw)
+	verifLemmaVlqSpan(w.currentChunk.data, 0, delta)
+	verifLemmaVlqSpan(w.currentChunk.data, vlqLenOf(delta)+1, uint32(len(raw)-1))
+	verifLemmaLen(len(raw) - 1)
+	rd := verifReaderOver(w.currentChunk.data, st)
+	m, err = rd.readEvent()
+	d = rd.deltatime
+	return
+}
+
+//@ func verifRoundTripSysex2
+//@ requires w != nil && writerInv(w) && len(w.currentChunk.data) == 0 && st == wrs(w) && (st == 0 || (st >= 0x80 && st <= 0xEF))
+//@ requires len(raw) >= 129 && len(raw) < 16385 && (raw[0] == 0xF0 || raw[0] == 0xF7)
+//@ modifies w.absPos, w.currentChunk, asptr(w.runningWriter, runningstatus.smfwriter).status
+//@ ensures [P:C01] err == nil && d == delta
+//@ ensures [P:C01] len(m) == len(raw) && m[0] == raw[0]
+//@ ensures [P:C01] forall i int :: 1 <= i && i < len(raw) ==> m[i] == raw[i]
+
+// sysex and escape events: F0 / F7, then vlq(len-1) and the remaining bytes; the reader drops the length again
+func verifRoundTripSysex3(w *writer, st byte, delta uint32, raw Message) (m Message, d uint32, err error) {
+	w.addMessage(delta, raw)
+	verifLemmaVlqSpan(w.currentChunk.data, 0, delta)
+	verifLemmaVlqSpan(w.currentChunk.data, vlqLenOf(delta)+1, uint32(len(raw)-1))
+	verifLemmaLen(len(raw) - 1)
+	rd := verifReaderOver(w.currentChunk.data, st)
+	m, err = rd.readEvent()
+	d = rd.deltatime
+	return
+}
+
+//@ func verifRoundTripSysex3
+//@ requires w != nil && writerInv(w) && len(w.currentChunk.data) == 0 && st == wrs(w) && (st == 0 || (st >= 0x80 && st <= 0xEF))
+//@ requires len(raw) >= 16385 && len(raw) < 2097153 && (raw[0] == 0xF0 || raw[0] == 0xF7)
+//@ modifies w.absPos, w.currentChunk, asptr(w.runningWriter, runningstatus.smfwriter).status
+//@ ensures [P:C01] err == nil && d == delta
+//@ ensures [P:C01] len(m) == len(raw) && m[0] == raw[0]
+//@ ensures [P:C01] forall i int :: 1 <= i && i < len(raw) ==> m[i] == raw[i]
+
+// sysex and escape events: F0 / F7, then vlq(len-1) and the remaining bytes; the reader drops the length again
+func verifRoundTripSysex4(w *writer, st byte, delta uint32, raw Message) (m Message, d uint32, err error) {
+	w.addMessage(delta, raw)
+	verifLemmaVlqSpan(w.currentChunk.data, 0, delta)
+	verifLemmaVlqSpan(w.currentChunk.data, vlqLenOf(delta)+1, uint32(len(raw)-1))
+	verifLemmaLen(len(raw) - 1)
+	rd := verifReaderOver(w.currentChunk.data, st)
+	m, err = rd.readEvent()
+	d = rd.deltatime
+	return
+}
+
+//@ func verifRoundTripSysex4
+//@ requires w != nil && writerInv(w) && len(w.currentChunk.data) == 0 && st == wrs(w) && (st == 0 || (st >= 0x80 && st <= 0xEF))
+//@ requires len(raw) >= 2097153 && len(raw) < 268435457 && (raw[0] == 0xF0 || raw[0] == 0xF7)
 //@ modifies w.absPos, w.currentChunk, asptr(w.runningWriter, runningstatus.smfwriter).status
 //@ ensures [P:C01] err == nil && d == delta
 //@ ensures [P:C01] len(m) == len(raw) && m[0] == raw[0]
